@@ -91,5 +91,18 @@ def flatten (H : Bytes → Bytes) : Node → Node
   | .ext k n => .ext k (asRef H n)
   | n => n
 
+/-- a child the encoder can reference: a hash node carries 32 bytes. -/
+def childOK : Node → Prop
+  | .hash h => h.length = 32
+  | _ => True
+
+/-- the size caps of the decoder, at the top level of a node. -/
+def WF : Node → Prop
+  | .branch cs => cs.length = WireLimits.mptChildrenCount ∧ ∀ c ∈ cs, childOK c
+  | .ext k n => k.length ≤ WireLimits.mptMaxPathLength ∧ childOK n
+  | .leaf v => v.length ≤ WireLimits.mptMaxValueLength
+  | .hash h => h.length = 32
+  | .empty => True
+
 end Node
 end NeoModel.Wire
